@@ -255,6 +255,33 @@ pub fn c06_relayouts(x: &str, cfg: &Cfg, opts: &RelayoutOpts, ctx: &mut Ctx) {
             }
         }
     }
+    if opts.singles {
+        // blank-line grouping is kept, the blank line itself carries blanks (editor auto-indent) or not
+        for &i in &sites {
+            if !toks[i].lead(x).contains('\n') {
+                continue;
+            }
+            let plain = with_gap(x, &toks, i, "\n\n");
+            if !layout::same_tokens(x, &plain) {
+                continue;
+            }
+            let want = ctx.fmt(cfg, &plain);
+            for alt in ["\n \t\n", "\n    \n  ", "\n\t\n\t"] {
+                let x2 = with_gap(x, &toks, i, alt);
+                ctx.sub_eval();
+                ctx.nontrivial();
+                let b = ctx.fmt(cfg, &x2);
+                if b != want {
+                    ctx.fail(
+                        "C06",
+                        "layout-dependent-output:blanks-on-a-blank-line",
+                        o2::first_diff_line(&want, &b),
+                        json!({"oracle": "c06", "input": plain, "input2": x2, "cfg": cfg}),
+                    );
+                }
+            }
+        }
+    }
     let flip = |cur: &str| if cur.contains('\n') { " " } else { "\n" };
     if opts.pairs {
         for a in 0..sites.len() {
